@@ -10,6 +10,10 @@ const WhopLocSymbol = Symbol("whopper-location")
 type WhopLoc struct {
 	Method  *Method
 	Current int
+	// Args are the arguments the wrapper at Current was called with. They are
+	// passed on when call-next-method or continue-whopper is called without
+	// arguments.
+	Args List
 }
 
 // String representation of the Object.
@@ -43,13 +47,16 @@ func (wl *WhopLoc) Eval(s *Scope, depth int) Object {
 }
 
 func (wl *WhopLoc) Continue(s *Scope, args List, depth int) Object {
+	if len(args) == 0 {
+		args = wl.Args
+	}
 	for i := wl.Current + 1; i < len(wl.Method.Combinations); i++ {
 		wrap := wl.Method.Combinations[i].Wrap
 		if wrap == nil {
 			continue
 		}
 		ws := s.NewScope()
-		ws.Let("~whopper-location~", &WhopLoc{Method: wl.Method, Current: i})
+		ws.Let("~whopper-location~", &WhopLoc{Method: wl.Method, Current: i, Args: args})
 		if lam, ok := wrap.(*Lambda); ok {
 			lam.Closure = ws
 		}
